@@ -169,6 +169,34 @@ macro_rules! transcript_buf {
         b.clear();
         b.push($a);
         $t.push(format!("clear-push {}", show(&b, w)));
+        // the read-only methods and the conversions called on the OWNED type (typed buffers have
+        // their own implementations; concrete buffers reach the path's through Deref)
+        let b = orig.clone();
+        let n0 = $t.len();
+        {
+            let p = &b;
+            $t.push(format!("is_absolute {}", p.is_absolute()));
+            $t.push(format!("is_relative {}", p.is_relative()));
+            $t.push(format!("has_root {}", p.has_root()));
+            $t.push(format!("parent {}", show_o(p.parent(), w)));
+            $t.push(format!("ancestors {}", p.ancestors().take(64).map(|x| show(&x, w)).collect::<Vec<_>>().join(",")));
+            $t.push(format!("file_name {}", show_o(p.file_name(), w)));
+            $t.push(format!("file_stem {}", show_o(p.file_stem(), w)));
+            $t.push(format!("extension {}", show_o(p.extension(), w)));
+            $t.push(format!("starts_with {}", p.starts_with($a)));
+            $t.push(format!("ends_with {}", p.ends_with($a)));
+            $t.push(format!("strip_prefix {}", show_o(p.strip_prefix($a).ok(), w)));
+            $t.push(format!("normalize {}", show(&p.normalize(), w)));
+            $t.push(format!("join {}", show(&p.join($a), w)));
+            $t.push(format!("join_checked {}", match p.join_checked($a) { Ok(x) => show(&x, w), Err(e) => format!("err:{:?}", e) }));
+            $t.push(format!("with_file_name {}", show(&p.with_file_name($a), w)));
+            $t.push(format!("with_extension {}", show(&p.with_extension($a), w)));
+            $t.push(format!("to-unix {} {:?}", show(&p.with_unix_encoding(), false), p.with_unix_encoding_checked().map(|x| show(&x, false))));
+            $t.push(format!("to-windows {} {:?}", show(&p.with_windows_encoding(), true), p.with_windows_encoding_checked().map(|x| show(&x, true))));
+        }
+        for l in $t[n0..].iter_mut() {
+            *l = format!("buf.{}", l);
+        }
     }};
 }
 
@@ -574,11 +602,52 @@ fn t_platform(s: &[u8], a: &[u8]) -> Vec<String> {
     })
 }
 
+fn t_platform8(s: &str, a: &str) -> Vec<String> {
+    let (s, a) = (s.to_string(), a.to_string());
+    catch(move || {
+        let mut t = Vec::new();
+        transcript_path!(t, Utf8PlatformPath::new(&s), a.as_str(), false);
+        transcript_buf!(t, Utf8PlatformPathBuf::from(s.as_str()), a.as_str(), false);
+        let p = Utf8PlatformPath::new(&s);
+        t.push(format!("components {}", p.components().map(|c| comp_line_u8(&c)).collect::<Vec<_>>().join(",")));
+        t.push(format!("components-rev {}", p.components().rev().map(|c| comp_line_u8(&c)).collect::<Vec<_>>().join(",")));
+        t.push(format!("iter {}", p.iter().map(|c| hex(&c.tob())).collect::<Vec<_>>().join(",")));
+        t.push(format!("iter-rev {}", p.iter().rev().map(|c| hex(&c.tob())).collect::<Vec<_>>().join(",")));
+        t.push(format!("iter-alt {}", alt(p.iter()).into_iter().map(|c| hex(&c.tob())).collect::<Vec<_>>().join(",")));
+        t.push(format!("components-alt {}", alt(p.components()).into_iter().map(|c| hex(&c.as_ref_bytes())).collect::<Vec<_>>().join(",")));
+        t.push(format!("to-unix {} {:?}", hex(&p.with_unix_encoding().tob()), p.with_unix_encoding_checked().map(|x| hex(&x.tob()))));
+        t.push(format!("to-windows {} {:?}", hex(&p.with_windows_encoding().tob()), p.with_windows_encoding_checked().map(|x| hex(&x.tob()))));
+        t
+    })
+}
+
+/// the transcript of one type family (`b` bytes, `8` UTF-8, `t` typed, `t8` UTF-8 typed, `p` platform,
+/// `p8` UTF-8 platform) — the `tx` op of the line protocol (C20 compares the two builds on it)
+pub fn transcript(family: &str, win: bool, s: &[u8], a: &[u8]) -> Vec<String> {
+    let utf = |f: &dyn Fn(&str, &str) -> Vec<String>| match (std::str::from_utf8(s), std::str::from_utf8(a)) {
+        (Ok(st), Ok(sa)) => f(st, sa),
+        _ => vec!["not-utf8".into()],
+    };
+    match family {
+        "b" => t_bytes(win, s, a),
+        "8" => utf(&|st, sa| t_utf8(win, st, sa)),
+        "t" => t_typed(win, s, a),
+        "t8" => utf(&|st, sa| t_typed8(win, st, sa)),
+        "p" => t_platform(s, a),
+        "p8" => utf(&|st, sa| t_platform8(st, sa)),
+        _ => vec!["bad-family".into()],
+    }
+}
+
 pub fn c15(ctx: &mut Ctx, tier: &str, seed: u64) {
     let t = tier_is_thorough(tier);
     let mut dom = dom_win_small(tier, seed);
     dom.extend(dom_unix_small(tier, seed));
     dom.extend(gen::utf8_dom("quick", seed).into_iter().step_by(if t { 5 } else { 23 }));
+    // names that one or both encodings forbid (checked conversions and validity must agree across families)
+    for s in [&b"a\0b/c"[..], b"/tmp/fo\0o/bar.txt", br"C:\logs\*.txt", b"a|b", br"\\?\C:\a?b", b"a:b/c", b"x/a\"b", b"d\\a<b>c", br"\\s\h\a\0"] {
+        dom.push(s.to_vec());
+    }
     let dom = dedup_keep_order(dom);
     let args: Vec<&[u8]> = vec![b"", b"a", b"..\\b", b"/x", b"C:y", b"a.b", br"\\?\C:\z", b".", b"a/../..", "é".as_bytes()];
     for s in &dom {
@@ -621,6 +690,12 @@ pub fn c15(ctx: &mut Ctx, tier: &str, seed: u64) {
                     let tp = t_platform(s, a);
                     if tb != tp {
                         ctx.fail("platform-equals-native", None, format!("comps u {}", hex(s)), format!("arg \"{}\": {}", lossy(a), first_diff(&tb, &tp)));
+                    }
+                    if let (Ok(st), Ok(sa)) = (std::str::from_utf8(s), std::str::from_utf8(a)) {
+                        let tp8 = t_platform8(st, sa);
+                        if tb != tp8 {
+                            ctx.fail("utf8-platform-equals-native", None, format!("comps u {}", hex(s)), format!("arg \"{}\": {}", lossy(a), first_diff(&tb, &tp8)));
+                        }
                     }
                 }
             }
